@@ -129,19 +129,37 @@ theorem nestedRC_rng (r : VRange) :
   obtain ⟨mn, mx, imin, imax⟩ := r
   cases mn <;> cases mx <;> simp [nestedRC, nestedLo, nestedHi]
 
+/-- a python item as `create_nested_marker` prints it: `python_version` / `python_full_version`, an ordered
+comparison, a printed release (at least three components for `python_full_version`) -/
+def PyItem3 (n op v : String) : Prop :=
+  ∃ lit : List Nat, PyName n ∧ CmpOp op ∧ lit ≠ [] ∧ (n = "python_full_version" → 3 ≤ lit.length) ∧ v = relText lit
+
+mutual
+/-- a syntax tree all of whose items are such python items, operands in the usual order -/
+def PyAtom : Atom → Prop
+  | .item n op v sw => sw = false ∧ PyItem3 n op v
+  | .paren m => PySyn m
+def PySyn : Syn → Prop
+  | .one a => PyAtom a
+  | .more a _ rest => PyAtom a ∧ PySyn rest
+end
+
 /-- the text `s` is one python item whose reference value on `E` is `b` -/
 def LeafMeans (E : Env) (s : String) (b : Bool) : Prop :=
-  ∃ n op val, PyName n ∧ CmpOp op ∧ Plain val ∧ s.toList = leafChars n op val ∧
-    evalItem n op (String.ofList val) false E = some b
+  ∃ n op v, PyItem3 n op v ∧ s.toList = leafChars n op v.toList ∧ evalItem n op v false E = some b
 
 theorem leafMeans_mk (E : Env) (n op : String) (lit cand : List Nat) (hn : PyName n) (hop : CmpOp op)
-    (hlit : lit ≠ []) (hcand : cand ≠ []) (hE : E.get? n = some (relText cand)) :
+    (hlit : lit ≠ []) (hcand : cand ≠ []) (hE : E.get? n = some (relText cand))
+    (hfull : n = "python_full_version" → 3 ≤ lit.length := by simp) :
     LeafMeans E (n ++ " " ++ op ++ " \"" ++ relText lit ++ "\"")
       (opTest op (compare (stripZeros cand) (stripZeros lit))) := by
-  refine ⟨n, op, (relText lit).toList, hn, hop, ?_, ?_, ?_⟩
-  · rw [relText_toList]; exact plain_relChars lit
+  refine ⟨n, op, relText lit, ⟨lit, hn, hop, hlit, hfull, rfl⟩, ?_, ?_⟩
   · simp [leafChars, String.toList_append]
-  · rw [String.ofList_toList]; exact evalItem_py E n op lit cand hn hop hlit hcand hE
+  · exact evalItem_py E n op lit cand hn hop hlit hcand hE
+
+theorem PyItem3.plain {n op v : String} (h : PyItem3 n op v) : PyName n ∧ CmpOp op ∧ Plain v.toList := by
+  obtain ⟨lit, hn, hop, _, _, rfl⟩ := h
+  exact ⟨hn, hop, by rw [relText_toList]; exact plain_relChars lit⟩
 
 theorem relText_pad2 (a b : Nat) : relText [a, b] ++ padZeros 1 = relText [a, b, 0] := by
   have : padZeros 1 = ".0" := by decide
@@ -280,22 +298,28 @@ theorem parseText_of_conj (t : String) (syn : Syn) (h : ConjParse t.toList syn) 
   simp only [hf, this, skipWs, List.isEmpty_nil, if_true]
 
 theorem leaf_conjParse {E : Env} {s : String} {b : Bool} (h : LeafMeans E s b) :
-    ∃ syn, ConjParse s.toList syn ∧ evalSyn E syn = some b := by
-  obtain ⟨n, op, val, hn, hop, hv, hs, he⟩ := h
-  refine ⟨.one (.item n op (String.ofList val) false), ?_, ?_⟩
+    ∃ syn, ConjParse s.toList syn ∧ evalSyn E syn = some b ∧ PySyn syn := by
+  obtain ⟨n, op, v, hi, hs, he⟩ := h
+  obtain ⟨hn, hop, hv⟩ := hi.plain
+  refine ⟨.one (.item n op v false), ?_, ?_, by simp [PySyn, PyAtom, hi]⟩
   · intro f rest hr
     rw [hs]
-    exact (parseSyn_one (f + 1) n op val rest hn hop hv hr).1
+    have := (parseSyn_one (f + 1) n op v.toList rest hn hop hv hr).1
+    rwa [String.ofList_toList] at this
   · simp [evalSyn, evalSynAcc, evalAtom, he, and?]
 
 theorem two_conjParse {E : Env} {s s' : String} {b b' : Bool} (h : LeafMeans E s b) (h' : LeafMeans E s' b') :
-    ∃ syn, ConjParse (s ++ " and " ++ s').toList syn ∧ evalSyn E syn = some (b && b') := by
-  obtain ⟨n, op, val, hn, hop, hv, hs, he⟩ := h
-  obtain ⟨n', op', val', hn', hop', hv', hs', he'⟩ := h'
-  refine ⟨.more (.item n op (String.ofList val) false) false (.one (.item n' op' (String.ofList val') false)), ?_, ?_⟩
+    ∃ syn, ConjParse (s ++ " and " ++ s').toList syn ∧ evalSyn E syn = some (b && b') ∧ PySyn syn := by
+  obtain ⟨n, op, v, hi, hs, he⟩ := h
+  obtain ⟨n', op', v', hi', hs', he'⟩ := h'
+  obtain ⟨hn, hop, hv⟩ := hi.plain
+  obtain ⟨hn', hop', hv'⟩ := hi'.plain
+  refine ⟨.more (.item n op v false) false (.one (.item n' op' v' false)), ?_, ?_,
+    by simp [PySyn, PyAtom, hi, hi']⟩
   · intro f rest hr
     simp only [String.toList_append, hs, hs', List.append_assoc]
-    exact parseSyn_two f n op val n' op' val' rest hn hop hv hn' hop' hv' hr
+    have := parseSyn_two f n op v.toList n' op' v'.toList rest hn hop hv hn' hop' hv' hr
+    rwa [String.ofList_toList, String.ofList_toList] at this
   · simp [evalSyn, evalSynAcc, evalAtom, he, he', and?]
 
 theorem leafChars_ne_nil (n op : String) (val : List Char) (hn : PyName n) : leafChars n op val ≠ [] := by
@@ -323,18 +347,19 @@ the environment of interpreter `X.Y.Z` is membership of `X.Y.Z` in the range. -/
 theorem nestedRng_exact (E : Env) (r : VRange) (hr : PyRange r = true) (X Y Z : Nat) (hE : EnvPy E X Y Z) :
     ∃ syn, ConjParse (nestedRC "python_version" (.rng r)).toList syn ∧
       parseText (nestedRC "python_version" (.rng r)) = .ok syn ∧
-      evalSyn E syn = some (r.allows (pyV X Y Z)) := by
+      evalSyn E syn = some (r.allows (pyV X Y Z)) ∧ PySyn syn := by
   have hall := allows_py_iff r hr X Y Z
   have hr' := hr
   simp only [PyRange, Bool.and_eq_true, Bool.not_eq_true', VRange.isAny, Bool.and_eq_false_iff,
     Option.isNone_eq_false_iff, Option.isSome_iff_exists] at hr'
   rw [nestedRC_rng]
   have key : ∀ (t : String) (syn : Syn) (b : Bool), ConjParse t.toList syn → t.toList ≠ [] →
-      evalSyn E syn = some b → (b = true ↔ r.allows (pyV X Y Z) = true) →
-      ∃ syn, ConjParse t.toList syn ∧ parseText t = .ok syn ∧ evalSyn E syn = some (r.allows (pyV X Y Z)) := by
+      evalSyn E syn = some b ∧ PySyn syn → (b = true ↔ r.allows (pyV X Y Z) = true) →
+      ∃ syn, ConjParse t.toList syn ∧ parseText t = .ok syn ∧ evalSyn E syn = some (r.allows (pyV X Y Z)) ∧
+        PySyn syn := by
     intro t syn b hc hne he hb
-    refine ⟨syn, hc, parseText_of_conj t syn hc hne, ?_⟩
-    rw [he]; congr 1; exact Bool.eq_iff_iff.2 hb
+    refine ⟨syn, hc, parseText_of_conj t syn hc hne, ?_, he.2⟩
+    rw [he.1]; congr 1; exact Bool.eq_iff_iff.2 hb
   cases hmin : r.min with
   | none =>
     cases hmax : r.max with
@@ -345,7 +370,7 @@ theorem nestedRng_exact (E : Env) (r : VRange) (hr : PyRange r = true) (X Y Z : 
       have hlo : nestedLo r = [] := by simp [nestedLo, hmin]
       rw [hlo, hs]
       refine key s syn b hc ?_ he ?_
-      · obtain ⟨n, op, val, hn, _, _, hs', _⟩ := hm; rw [hs']; exact leafChars_ne_nil n op val hn
+      · obtain ⟨n, op, v, hi, hs', _⟩ := hm; rw [hs']; exact leafChars_ne_nil n op _ hi.plain.1
       · rw [hall, hb]; simp [VRange.denLo, hmin]
   | some m =>
     obtain ⟨s, b, hs, hm, hb⟩ := nestedLo_means E r hmin (by simpa [hmin] using hr'.1.1) X Y Z hE
@@ -355,7 +380,7 @@ theorem nestedRng_exact (E : Env) (r : VRange) (hr : PyRange r = true) (X Y Z : 
       have hhi : nestedHi r = [] := by simp [nestedHi, hmax]
       rw [hhi, hs]
       refine key s syn b hc ?_ he ?_
-      · obtain ⟨n, op, val, hn, _, _, hs', _⟩ := hm; rw [hs']; exact leafChars_ne_nil n op val hn
+      · obtain ⟨n, op, v, hi, hs', _⟩ := hm; rw [hs']; exact leafChars_ne_nil n op _ hi.plain.1
       · rw [hall, hb]; simp [VRange.rawHi, hmax]
     | some M =>
       obtain ⟨s', b', hs', hm', hb'⟩ := nestedHi_means E r hmax (by simpa [hmax] using hr'.1.2) X Y Z hE
@@ -364,9 +389,9 @@ theorem nestedRng_exact (E : Env) (r : VRange) (hr : PyRange r = true) (X Y Z : 
       have e : joinWith " and " ([s] ++ [s']) = s ++ " and " ++ s' := by simp [joinWith]
       rw [e]
       refine key _ syn (b && b') hc ?_ he ?_
-      · obtain ⟨n, op, val, hn, _, _, hs'', _⟩ := hm
+      · obtain ⟨n, op, v, hi, hs'', _⟩ := hm
         simp only [String.toList_append, hs'']
-        have := leafChars_ne_nil n op val hn
+        have := leafChars_ne_nil n op v.toList hi.plain.1
         simp [this]
       · rw [hall, Bool.and_eq_true, hb, hb']
 
@@ -377,7 +402,7 @@ theorem nestedVer_exact (E : Env) (v : Version) (hb : PyBound v = true) (hp : v.
     (X Y Z : Nat) (hE : EnvPy E X Y Z) :
     ∃ syn, ConjParse (nestedRC "python_version" (.ver v)).toList syn ∧
       parseText (nestedRC "python_version" (.ver v)) = .ok syn ∧
-      evalSyn E syn = some (v.allows (pyV X Y Z)) := by
+      evalSyn E syn = some (v.allows (pyV X Y Z)) ∧ PySyn syn := by
   obtain ⟨_, _, _, _, _, ht, hr⟩ := PyBound_parts hb
   obtain ⟨a, b, c, e⟩ : ∃ a b c, v.release = [a, b, c] := by
     rcases hr with ⟨a, e⟩ | ⟨a, b, e⟩ | ⟨a, b, c, e⟩ <;> simp [Version.precision, e] at hp
@@ -387,10 +412,10 @@ theorem nestedVer_exact (E : Env) (v : Version) (hb : PyBound v = true) (hp : v.
   have htxt : nestedRC "python_version" (.ver v) =
       "python_full_version" ++ " " ++ "==" ++ " \"" ++ relText [a, b, c] ++ "\"" := by
     simp [nestedRC, hp, ht, e]
-  obtain ⟨syn, hc, he⟩ := leaf_conjParse hm
+  obtain ⟨syn, hc, he, hpy⟩ := leaf_conjParse hm
   rw [htxt]
-  refine ⟨syn, hc, parseText_of_conj _ syn hc ?_, ?_⟩
-  · obtain ⟨n, op, val, hn, _, _, hs', _⟩ := hm; rw [hs']; exact leafChars_ne_nil n op val hn
+  refine ⟨syn, hc, parseText_of_conj _ syn hc ?_, ?_, hpy⟩
+  · obtain ⟨n, op, v', hi, hs', _⟩ := hm; rw [hs']; exact leafChars_ne_nil n op _ hi.plain.1
   · rw [he]; congr 1
     apply Bool.eq_iff_iff.2
     rw [opTest_eq, sz3, lex3_eq]
@@ -439,7 +464,7 @@ def PyDom : RC → Bool
 theorem nestedRC_conj (E : Env) (rc : RC) (hd : PyDom rc = true) (X Y Z : Nat) (hE : EnvPy E X Y Z) :
     ∃ syn, ConjParse (nestedRC "python_version" rc).toList syn ∧
       parseText (nestedRC "python_version" rc) = .ok syn ∧
-      evalSyn E syn = some (rc.allows (pyV X Y Z)) := by
+      evalSyn E syn = some (rc.allows (pyV X Y Z)) ∧ PySyn syn := by
   cases rc with
   | ver v =>
     simp only [PyDom, Bool.and_eq_true, beq_iff_eq] at hd
@@ -474,35 +499,47 @@ theorem length_unionChars (cs : List (List Char)) : 2 * cs.length ≤ (unionChar
     | nil => simp [unionChars]
     | cons b bs => simp [unionChars] at ih ⊢; omega
 
+theorem pySyn_union (ms : List (List Char × Syn)) (hne : ms ≠ []) (h : ∀ p ∈ ms, PySyn p.2) :
+    PySyn (unionSyn (ms.map (·.2))) := by
+  induction ms with
+  | nil => exact absurd rfl hne
+  | cons p ps ih =>
+    cases ps with
+    | nil => simpa [unionSyn, PySyn, PyAtom] using h p (by simp)
+    | cons q qs =>
+      have := ih (by simp) (fun x hx => h x (by simp [hx]))
+      simp only [List.map_cons, unionSyn, PySyn, PyAtom] at this ⊢
+      exact ⟨h p (by simp), this⟩
+
 /-- **`create_nested_marker` for a union is exact**: `(…) or (…)` parses and its reference value is the
 disjunction of the members' memberships. -/
 theorem nestedUnion_exact (E : Env) (rs : List RC) (hne : rs ≠ []) (hd : ∀ rc ∈ rs, PyDom rc = true)
     (X Y Z : Nat) (hE : EnvPy E X Y Z) :
     ∃ syn, parseText (joinWith " or " (rs.map (fun rc => "(" ++ (if rc.isAny then "" else nestedRC "python_version" rc) ++ ")"))) = .ok syn ∧
-      evalSyn E syn = some (rs.any (fun rc => rc.allows (pyV X Y Z))) := by
+      evalSyn E syn = some (rs.any (fun rc => rc.allows (pyV X Y Z))) ∧ PySyn syn := by
   -- per-member syntax trees
   have hmem : ∀ rc ∈ rs, ∃ syn, ConjParse (if rc.isAny then "" else nestedRC "python_version" rc).toList syn ∧
-      evalSyn E syn = some (rc.allows (pyV X Y Z)) := by
+      evalSyn E syn = some (rc.allows (pyV X Y Z)) ∧ PySyn syn := by
     intro rc hrc
     obtain ⟨syn, hc, _, he⟩ := nestedRC_conj E rc (hd rc hrc) X Y Z hE
     exact ⟨syn, by simpa [PyDom_not_any (hd rc hrc)] using hc, he⟩
   -- choose them along the list
   let t : RC → String := fun rc => if rc.isAny then "" else nestedRC "python_version" rc
   have hlist : ∃ (ms : List (List Char × Syn)) (bs : List (Syn × Bool)),
-      ms.map (·.1) = rs.map (fun rc => (t rc).toList) ∧ (∀ p ∈ ms, ConjParse p.1 p.2) ∧
+      ms.map (·.1) = rs.map (fun rc => (t rc).toList) ∧ (∀ p ∈ ms, ConjParse p.1 p.2 ∧ PySyn p.2) ∧
       bs.map (·.1) = ms.map (·.2) ∧ bs.map (·.2) = rs.map (fun rc => rc.allows (pyV X Y Z)) ∧
       ∀ p ∈ bs, evalSyn E p.1 = some p.2 := by
     clear hne hd
     induction rs with
     | nil => exact ⟨[], [], rfl, by simp, rfl, rfl, by simp⟩
     | cons a as ih =>
-      obtain ⟨sa, ha, hea⟩ := hmem a (by simp)
+      obtain ⟨sa, ha, hea, hpa⟩ := hmem a (by simp)
       obtain ⟨ms, bs, h1, h2, h3, h4, h5⟩ := ih (fun rc hrc => hmem rc (by simp [hrc]))
       refine ⟨((t a).toList, sa) :: ms, (sa, a.allows (pyV X Y Z)) :: bs, by simp [h1], ?_, by simp [h3],
         by simp [h4], ?_⟩
       · intro p hp
         rcases List.mem_cons.1 hp with rfl | hp
-        · exact ha
+        · exact ⟨ha, hpa⟩
         · exact h2 p hp
       · intro p hp
         rcases List.mem_cons.1 hp with rfl | hp
@@ -521,7 +558,7 @@ theorem nestedUnion_exact (E : Env) (rs : List RC) (hne : rs ≠ []) (hd : ∀ r
     intro h; rw [h] at hlen; simp at hlen; omega
   have hbne : bs ≠ [] := by
     intro h; rw [h] at hblen; simp at hblen; omega
-  refine ⟨unionSyn (ms.map (·.2)), ?_, ?_⟩
+  refine ⟨unionSyn (ms.map (·.2)), ?_, ?_, pySyn_union _ hmne (fun p hp => (h2 p hp).2)⟩
   · unfold parseText
     have htl := unionText_toList t rs
     simp only [t] at htl h1
@@ -530,7 +567,7 @@ theorem nestedUnion_exact (E : Env) (rs : List RC) (hne : rs ≠ []) (hd : ∀ r
     simp only [List.length_map, hlen] at hlen2
     obtain ⟨f, hf⟩ : ∃ f, 2 * (unionChars (ms.map (·.1))).length + 2 = f + ms.length + 4 :=
       ⟨2 * (unionChars (ms.map (·.1))).length + 2 - ms.length - 4, by omega⟩
-    have := (parseSyn_union ms hmne h2 f [] (Or.inl rfl)).1
+    have := (parseSyn_union ms hmne (fun p hp => (h2 p hp).1) f [] (Or.inl rfl)).1
     simp only [List.append_nil] at this
     simp only [hf, this, skipWs, List.isEmpty_nil, if_true]
   · have hev := evalSyn_union E bs hbne h5
